@@ -3,7 +3,7 @@ The main induction for the fresh-evaluation cycle model: from every state that s
 invariant, `queryFor` with fuel `≥ #keys + 1 − depth` returns (no out-of-fuel, no deadlock, no panic),
 re-establishes the invariant, and reports `cyclic` exactly when the caller has been marked.
 -/
-import QbiceVerif.Lemmas.CycleSteps2
+import QbiceVerif.Lemmas.CycleSteps3
 namespace Qbice.Cycle
 
 /-- executors ask only for keys of the program -/
@@ -25,6 +25,7 @@ structure Post (p : Program) (st : St) (k : Key) (r : QRes) (st' : St) : Prop wh
   shapeEq : shape st'.stack = shape (regTop k st.stack)
   val : ∀ v, r = .value v → NoMarks st'.stack ∧ valOf st'.memo k = some v
   cyc : r = .cyclic → ∃ t rest, st'.stack = t :: rest ∧ t.inScc = true
+  inv2 : Inv2 p st'
 
 /-- the part of `queryFor` after `exit_scc` found that `k` is not computing -/
 def afterExit (p : Program) (fuel : Nat) (k : Key) (caller : Option Key) (st : St) : R QRes :=
@@ -113,16 +114,19 @@ theorem filter_head_key {t : Frame} {r : List Frame} (nd : (keys (t :: r)).Nodup
 
 /-- the executor of `owner` (top of the stack), given the specification of the queries it makes -/
 theorem runProg_spec (p : Program) (fuel : Nat) (owner : Key)
-    (IH : ∀ k st, Inv p st → NoMarks st.stack → CallerOK (some owner) st.stack → k < p.length →
+    (IH : ∀ k st, Inv p st → Inv2 p st → NoMarks st.stack → CallerOK (some owner) st.stack → k < p.length →
       (∀ top r, st.stack = top :: r → MayAsk (progOf p top.key) k) →
+      (∀ top r, st.stack = top :: r → Reaches (valOf st.memo) (progOf p top.key) k) →
       p.length + 1 ≤ fuel + st.stack.length →
       ∃ r st', queryFor p fuel k (some owner) st = .ok (r, st') ∧ Post p st k r st') :
     ∀ prog, WFProg p.length prog → (∀ x, MayAsk prog x → MayAsk (progOf p owner) x) →
-    ∀ st top rest, Inv p st → NoMarks st.stack → st.stack = top :: rest → top.key = owner →
+    ∀ st top rest, Inv p st → Inv2 p st → NoMarks st.stack → st.stack = top :: rest → top.key = owner →
+      (∀ tbl : Key → Option Val, (∀ x v, valOf st.memo x = some v → tbl x = some v) →
+        ∀ t, Reaches tbl prog t → Reaches tbl (progOf p owner) t) →
       p.length + 1 ≤ fuel + st.stack.length →
       ∃ ran st' top' rest' new,
         runProg (fun k' s => queryFor p fuel k' (some owner) s) prog st = .ok (ran, st') ∧
-        Inv p st' ∧ st'.memo = new ++ st.memo ∧ st'.stack = top' :: rest' ∧ top'.key = owner ∧
+        Inv p st' ∧ Inv2 p st' ∧ st'.memo = new ++ st.memo ∧ st'.stack = top' :: rest' ∧ top'.key = owner ∧
         shape rest' = shape rest ∧ (∀ x ∈ top.callees, x ∈ top'.callees) ∧
         (∀ v, ran = .done v → NoMarks st'.stack ∧ evalWith (valOf st'.memo) prog = some v ∧
             ∀ x ∈ asksWith (valOf st'.memo) prog, x ∈ top'.callees) ∧
@@ -130,14 +134,14 @@ theorem runProg_spec (p : Program) (fuel : Nat) (owner : Key)
   intro prog wf
   induction wf with
   | ret v =>
-    intro _ st top rest hinv nm hs hk _
-    refine ⟨.done v, st, top, rest, [], rfl, hinv, rfl, hs, hk, rfl, fun x hx => hx, ?_, ?_⟩
+    intro _ st top rest hinv hinv2 nm hs hk _ _
+    refine ⟨.done v, st, top, rest, [], rfl, hinv, hinv2, rfl, hs, hk, rfl, fun x hx => hx, ?_, ?_⟩
     · intro v' hv
       injection hv with hv; subst hv
       exact ⟨nm, rfl, by simp [asksWith]⟩
     · intro h; cases h
   | ask k cont hk _ ih =>
-    intro hsub st top rest hinv nm hs htk hfuel
+    intro hsub st top rest hinv hinv2 nm hs htk hres hfuel
     have hco : CallerOK (some owner) st.stack := by rw [hs]; exact htk
     have hask : ∀ t r, st.stack = t :: r → MayAsk (progOf p t.key) k := by
       intro t r hs'
@@ -145,7 +149,13 @@ theorem runProg_spec (p : Program) (fuel : Nat) (owner : Key)
       injection hs' with h1 _
       rw [← h1, htk]
       exact hsub k (.here k cont)
-    obtain ⟨r, st1, hq, post⟩ := IH k st hinv nm hco hk hask hfuel
+    have hreach : ∀ t r, st.stack = t :: r → Reaches (valOf st.memo) (progOf p t.key) k := by
+      intro t r hs'
+      rw [hs] at hs'
+      injection hs' with h1 _
+      rw [← h1, htk]
+      exact hres (valOf st.memo) (fun _ _ h => h) k (.here k cont)
+    obtain ⟨r, st1, hq, post⟩ := IH k st hinv hinv2 nm hco hk hask hreach hfuel
     have hsh := post.shapeEq
     rw [hs] at hsh
     obtain ⟨t1, r1, hs1, ht1k, ht1c, hr1⟩ := shape_cons_inv hsh
@@ -156,7 +166,7 @@ theorem runProg_spec (p : Program) (fuel : Nat) (owner : Key)
       obtain ⟨t, rr, hst, htm⟩ := post.cyc rfl
       rw [hs1] at hst
       injection hst with h1 h2
-      refine ⟨.aborted, st1, t1, r1, new1, ?_, post.inv, hnew1, hs1, ht1k.trans htk, hr1, ?_, ?_, ?_⟩
+      refine ⟨.aborted, st1, t1, r1, new1, ?_, post.inv, post.inv2, hnew1, hs1, ht1k.trans htk, hr1, ?_, ?_, ?_⟩
       · simp only [runProg, hq]
       · intro x hx; rw [ht1c]; exact mem_addCallee.2 (Or.inl hx)
       · intro v hv; cases hv
@@ -169,9 +179,17 @@ theorem runProg_spec (p : Program) (fuel : Nat) (owner : Key)
         rw [shape_length hr1]
       have hsub' : ∀ x, MayAsk (cont v) x → MayAsk (progOf p owner) x :=
         fun x hx => hsub x (.there k cont v x hx)
-      obtain ⟨ran, st2, top2, rest2, new2, hrun, hinv2, hnew2, hs2, ht2k, hr2, hcal2, hdone, habort⟩ :=
-        ih v hsub' st1 t1 r1 post.inv nm1 hs1 (ht1k.trans htk) (by rw [hlen]; exact hfuel)
-      refine ⟨ran, st2, top2, rest2, new2 ++ new1, ?_, hinv2, ?_, hs2, ht2k, hr2.trans hr1, ?_, ?_, habort⟩
+      have hres' : ∀ tbl : Key → Option Val, (∀ x w, valOf st1.memo x = some w → tbl x = some w) →
+          ∀ t, Reaches tbl (cont v) t → Reaches tbl (progOf p owner) t := by
+        intro tbl hext t rr
+        refine hres tbl ?_ t (.step k cont v t (hext k v hval) rr)
+        intro x w hx
+        apply hext
+        rw [hnew1, valOf_append_of_mem (by rw [← hnew1]; exact post.inv.nodup_mkeys) (valOf_mem hx)]
+        exact hx
+      obtain ⟨ran, st2, top2, rest2, new2, hrun, hinv2, hinv22, hnew2, hs2, ht2k, hr2, hcal2, hdone, habort⟩ :=
+        ih v hsub' st1 t1 r1 post.inv post.inv2 nm1 hs1 (ht1k.trans htk) hres' (by rw [hlen]; exact hfuel)
+      refine ⟨ran, st2, top2, rest2, new2 ++ new1, ?_, hinv2, hinv22, ?_, hs2, ht2k, hr2.trans hr1, ?_, ?_, habort⟩
       · simp only [runProg, hq, hrun]
       · rw [hnew2, hnew1, List.append_assoc]
       · intro x hx
